@@ -1,21 +1,32 @@
 #!/usr/bin/env python3
 """T-E: the ordered skeleton of synchronisation-relevant actions of every protocol function of
 libcuckoo/cuckoohash_map.hh, as Lean data (Cuckoo/Gen/Sync.lean).  Props/C01Sync.lean proves by `decide` that each
-skeleton obeys the local rules S, V, A, R, E of Model/Proto.lean.
+skeleton obeys the local rules S, V, A, R, E of Model/Proto.lean — by *running* the skeleton on a small abstract
+machine on all small inputs, so that behaviour-preserving rewrites of the source do not matter.
 
 Two independent extractions must produce the *same* list of actions (kind, receiver, operands, structure markers)
 for every covered function, else the translator reports an error:
   (a) text pass: comments / string literals / `LIBCUCKOO_VERIF` branches / hook, debug and assert macros are blanked
       (offsets preserved); the function is located by enclosing class + name + parameter discriminator and brace
-      matching; a small statement parser (if/else, while, for, range-for, do, switch, try/catch, return, throw,
-      continue, break, declarations, lambdas) walks the tokens and a linear scanner recognises the vocabulary;
+      matching; a small statement parser (if/else, while, do, for, range-for, switch, try/catch, return, throw,
+      continue, break, declarations, assignments, lambdas) walks the tokens and a linear scanner recognises the
+      vocabulary;
   (b) AST pass: clang++-14 -ast-dump=json of the class template *pattern* (guard off, NDEBUG); the function is
       located by record path + name + parameter types; statements and calls come from clang's tree (callee names from
       the `name` / `member` fields, or - UnresolvedMemberExpr carries no name in clang 14 - from the callee node's own
       source range).  Operand *texts* are the source slices delimited by clang's node ranges.
 The opening brace of the body found by (a) must be at the offset of clang's CompoundStmt.
 
-usage: syncskel.py <repo> <out.lean> [scratch_dir]
+Every operand is also emitted in postfix form (`Tk` tokens: numbers, names, operators, calls with arity, member
+accesses, subscripts) so that the Lean side can evaluate it: (a) gets it from a precedence-climbing parser over the
+tokens, (b) from a post-order walk of clang's expression tree; an operand on which the two do not agree (or that
+either cannot express) is emitted as `unk` — never as one side's guess.
+
+Normalisations (done identically, and independently, by both passes): `std::for_each(C.begin(), C.end(), [](T &v){..})`
+is a range loop over `C` with element `v`; every loop is `loop … do_ body [incr_ increment] endLoop`; `++x`, `x += e`
+are `step` (with the new value in postfix form), `x = e` is `assign`.
+
+usage: syncskel.py <repo> <out.lean> [scratch_dir]      (SYNCSKEL_DEBUG=1 prints the postfix-form statistics)
 """
 import json
 import os
@@ -68,7 +79,7 @@ SIMPLE_CALLS = {
 }
 SPECIAL_CALLS = {"lock", "unlock", "hashpower", "num_remaining_lazy_rehash_locks", "is_migrated", "swap",
                  "emplace_back", "push_back", "pop_back", "clear", "erase", "fetch_add", "fetch_sub", "load", "store",
-                 "exchange", "back", "setKV", "eraseKV", "clear_and_deallocate"}
+                 "exchange", "back", "setKV", "eraseKV", "clear_and_deallocate", "resize"}
 BUCKET_ARRAYS = ("buckets_", "old_buckets_")
 
 KINDS = ["loadRc", "rcLoadRaw", "rcOther", "hpGet", "hpSet", "getLocks", "locksBack", "lock", "unlock", "tryLock",
@@ -77,7 +88,7 @@ KINDS = ["loadRc", "rcLoadRaw", "rcOther", "hpGet", "hpSet", "getLocks", "locksB
          "setMigrated", "moveBucket", "bucketAt", "bucketsSwap", "bucketsAssign", "bucketsMeth", "bucketsRef",
          "streamIn", "cuckooClear", "pathSearch", "pathMove", "slotSearch", "runCuckoo", "cuckooInsert", "fastDouble",
          "expandSimple", "snapshotLockTwo", "checkValidity", "parallelExec", "reset", "releaseMgr", "swapVals",
-         "params", "decl", "step", "loop", "endLoop", "if_", "then_", "else_", "endIf", "try_", "catch_", "endTry", "switch_",
+         "resizeVec", "params", "decl", "assign", "step", "do_", "incr_", "loop", "endLoop", "if_", "then_", "else_", "endIf", "try_", "catch_", "endTry", "switch_",
          "case_", "default_", "endSwitch", "lambda_", "endLambda", "ret", "throw_", "continue_", "break_"]
 
 
@@ -106,6 +117,8 @@ def classify(name, recv, nargs, free):
         return "lazyGet" if nargs == 0 else "lazySet"
     if name == "is_migrated":
         return "isMigrated"
+    if name == "resize":
+        return "resizeVec" if recv else None
     if name == "swap":
         if not recv:
             return "swapVals" if free else None
@@ -385,11 +398,19 @@ def norm_text(s):
     return norm_tokens([t.t for t in tokenize(s)])
 
 
-class Act:
-    __slots__ = ("k", "r", "a", "alt")
+class Unsupported(Exception):
+    """an operand outside the little expression language of the RPN tables (it is then emitted as `unk`)"""
 
-    def __init__(self, k, r="", a=(), alt=None):
+
+UNK = [("unk",)]
+
+
+class Act:
+    __slots__ = ("k", "r", "a", "alt", "x")
+
+    def __init__(self, k, r="", a=(), alt=None, x=()):
         self.k, self.r, self.a, self.alt = k, r, list(a), alt
+        self.x = [list(e) for e in x]      # postfix (RPN) form of the receiver / operands, see the header of Gen/Sync.lean
 
     def key(self):
         return (self.k, self.r, tuple(self.a))
@@ -561,9 +582,6 @@ class TextPass:
             i = self.stmt(i, b1)
         return self.out
 
-    def emit(self, k, r="", a=()):
-        self.out.append(Act(k, r, a))
-
     def text(self, a, b):
         return norm_tokens([t.t for t in self.toks[a:b]])
 
@@ -599,6 +617,218 @@ class TextPass:
             q += 1
         raise TranslateError("text pass: statement at offset %d has no ';'" % T[i].off)
 
+    def emit(self, k, r="", a=(), x=()):
+        self.out.append(Act(k, r, a, None, x))
+
+    # ---- operands in postfix form (precedence-climbing parser over the tokens; the AST pass produces the same
+    # ---- form by a post-order walk of clang's tree; an operand both do not agree on is emitted as `unk`) -----
+    BIN_LEVELS = [("||",), ("&&",), ("|",), ("^",), ("&",), ("==", "!="), ("<", ">", "<=", ">="), ("<<", ">>"),
+                  ("+", "-"), ("*", "/", "%")]
+
+    def rx(self, a, b):
+        """RPN of tokens a..b ; [] for an empty range ; UNK if outside the expression language"""
+        if b <= a:
+            return []
+        try:
+            r, i = self.px_ternary(a, b)
+            if i != b:
+                raise Unsupported()
+            return r
+        except (Unsupported, IndexError, KeyError, RecursionError):
+            return list(UNK)
+
+    def px_ternary(self, i, e):
+        T = self.toks
+        r, i = self.px_bin(i, e, 0)
+        if i < e and T[i].t == "?":
+            x, j = self.px_ternary(i + 1, e)
+            if j >= e or T[j].t != ":":
+                raise Unsupported()
+            y, k = self.px_ternary(j + 1, e)
+            return r + x + y + [("op", "?:")], k
+        return r, i
+
+    def px_bin(self, i, e, level):
+        T = self.toks
+        if level == len(self.BIN_LEVELS):
+            return self.px_unary(i, e)
+        r, i = self.px_bin(i, e, level + 1)
+        while i < e and T[i].kind == "op" and T[i].t in self.BIN_LEVELS[level]:
+            o = T[i].t
+            y, i = self.px_bin(i + 1, e, level + 1)
+            r = r + y + [("op", o)]
+        return r, i
+
+    def px_unary(self, i, e):
+        T = self.toks
+        if i >= e:
+            raise Unsupported()
+        t = T[i]
+        if t.kind == "op" and t.t in ("!", "-", "+", "*", "&", "~", "++", "--"):
+            r, j = self.px_unary(i + 1, e)
+            return r + [("op", "u" + t.t)], j
+        return self.px_postfix(i, e)
+
+    def px_args(self, o, c):
+        """arguments between the brackets at o and c: (rpn of all, count)"""
+        r = []
+        n = 0
+        for x, y in self.split_args(o + 1, c):
+            z, j = self.px_ternary(x, y)
+            if j != y:
+                raise Unsupported()
+            r += z
+            n += 1
+        return r, n
+
+    def px_postfix(self, i, e):
+        T = self.toks
+        start = i
+        t = T[i]
+        if t.kind == "num":
+            m = re.match(r"^(0[xX][0-9a-fA-F]+|\d+)[uUlL]*$", t.t)
+            if not m:
+                raise Unsupported()
+            r = [("num", int(m.group(1), 0) if m.group(1).lower().startswith("0x") else int(m.group(1)))]
+            i += 1
+        elif t.t in ("true", "false", "nullptr"):
+            r = [("num", 1 if t.t == "true" else 0)]
+            i += 1
+        elif t.t == "this":
+            r = [("var", "this")]
+            i += 1
+        elif t.t in ("static_cast", "reinterpret_cast", "const_cast"):
+            j = self.skip_angle(i + 1, e) if T[i + 1].t == "<" else None
+            if j is None or T[j].t != "(":
+                raise Unsupported()
+            c = self.match[j]
+            r, k = self.px_ternary(j + 1, c)
+            if k != c:
+                raise Unsupported()
+            i = c + 1
+        elif t.t == "(":
+            c = self.match[i]
+            if c + 1 < e and (T[c + 1].kind in ("id", "num") and T[c + 1].t not in KEYWORDS or T[c + 1].t == "(") and \
+                    all(T[z].kind == "id" or T[z].t in ("::", "*", "&", "<", ">") for z in range(i + 1, c)):
+                raise Unsupported()            # looks like a C-style cast
+            r, k = self.px_ternary(i + 1, c)
+            if k != c:
+                raise Unsupported()
+            i = c + 1
+        elif t.t == "{":
+            c = self.match[i]
+            r, n = self.px_args(i, c)
+            r = r + [("lst", n)]
+            i = c + 1
+        elif t.kind == "id" and (t.t not in KEYWORDS or t.t in TYPE_KEYWORDS):
+            # (qualified) name, possibly with template arguments
+            j = i
+            name_end = i
+            while True:
+                if T[j].kind != "id" or (T[j].t in KEYWORDS and T[j].t not in TYPE_KEYWORDS):
+                    raise Unsupported()
+                j += 1
+                name_end = j                      # the name without trailing template arguments
+                if j < e and T[j].t == "<":
+                    k = self.skip_angle(j, e)
+                    if k is not None and k < e and T[k].t in ("(", "::", "{"):
+                        j = k
+                if j + 1 < e and T[j].t == "::":
+                    j += 1
+                    if T[j].t == "template":
+                        j += 1
+                    continue
+                break
+            if j < e and T[j].t in ("(", "{"):
+                c = self.match[j]
+                if c >= e:
+                    raise Unsupported()
+                args, n = self.px_args(j, c)
+                r = args + [("call", self.text(i, name_end), n, self.text(start, c + 1))]
+                i = c + 1
+            else:
+                r = [("var", self.text(i, j))]
+                i = j
+        else:
+            raise Unsupported()
+        while i < e:
+            t = T[i]
+            if t.t == "[":
+                c = self.match[i]
+                x, k = self.px_ternary(i + 1, c)
+                if k != c:
+                    raise Unsupported()
+                r = r + x + [("sub", self.text(start, c + 1))]
+                i = c + 1
+            elif t.t in (".", "->"):
+                j = i + 1
+                if T[j].t == "template":
+                    j += 1
+                if T[j].kind != "id" or T[j].t in KEYWORDS:
+                    raise Unsupported()
+                name = T[j].t
+                j += 1
+                k = j
+                if j < e and T[j].t == "<":
+                    z = self.skip_angle(j, e)
+                    if z is not None and z < e and T[z].t == "(":
+                        k = z
+                if k < e and T[k].t == "(":
+                    c = self.match[k]
+                    args, n = self.px_args(k, c)
+                    r = r + args + [("call", "." + name, n + 1, self.text(start, c + 1))]
+                    i = c + 1
+                else:
+                    r = r + [("mem", name, self.text(start, j))]
+                    i = j
+            elif t.t in ("++", "--"):
+                r = r + [("op", "p" + t.t)]
+                i += 1
+            elif t.t == "(":
+                raise Unsupported()
+            else:
+                break
+        return r, i
+
+    def assign_op(self, a, e):
+        """index of the top-level assignment operator of the expression statement a..e, or None"""
+        T = self.toks
+        q = a
+        while q < e:
+            t = T[q]
+            if t.kind == "op" and t.t in "([{":
+                q = self.match[q] + 1
+                continue
+            if t.kind == "op" and t.t in ("=", "+=", "-=", "*=", "/=", "%=", "&=", "|=", "^=", "<<=", ">>="):
+                return q
+            if t.t == "?":
+                return None
+            q += 1
+        return None
+
+    def expr_stmt(self, a, e):
+        """expression statement / for-increment in tokens a..e : its actions, then `assign` / `step` if it is one"""
+        T = self.toks
+        self.scan_expr(a, e)
+        if e <= a:
+            return
+        p = self.assign_op(a, e)
+        if p is not None and p > a:
+            lhs = self.text(a, p)
+            if T[p].t == "=":
+                self.emit("assign", "", [lhs, self.text(p + 1, e)], [self.rx(p + 1, e)])
+            else:
+                o = T[p].t[:-1]
+                x, y = self.rx(a, p), self.rx(p + 1, e)
+                nv = list(UNK) if x == UNK or y == UNK else x + y + [("op", o)]
+                self.emit("step", "", [self.text(a, e), lhs], [nv])
+        elif T[a].t in ("++", "--") or T[e - 1].t in ("++", "--"):
+            lo, hi = (a + 1, e) if T[a].t in ("++", "--") else (a, e - 1)
+            o = (T[a].t if T[a].t in ("++", "--") else T[e - 1].t)[0]
+            x = self.rx(lo, hi)
+            nv = list(UNK) if x == UNK else x + [("num", 1), ("op", o)]
+            self.emit("step", "", [self.text(a, e), self.text(lo, hi)], [nv])
+
     def stmt(self, i, limit):
         T = self.toks
         t = T[i].t
@@ -619,7 +849,7 @@ class TextPass:
             k = self.match[j]
             if any(T[q].t == ";" for q in range(j + 1, k) if self.depth_in(j, q) == 0):
                 raise TranslateError("text pass: if with init-statement at offset %d is not supported" % T[i].off)
-            self.emit("if_", "", self.cond_args(j + 1, k))
+            self.emit("if_", "", self.cond_args(j + 1, k), [self.rx(j + 1, k)])
             self.scan_expr(j + 1, k)
             self.emit("then_")
             q = self.stmt(k + 1, limit)
@@ -631,17 +861,28 @@ class TextPass:
         if t == "while":
             j = i + 1
             k = self.match[j]
-            self.emit("loop", "", ["while"] + self.cond_args(j + 1, k))
+            self.emit("loop", "", ["while"] + self.cond_args(j + 1, k), [self.rx(j + 1, k)])
             self.scan_expr(j + 1, k)
+            self.emit("do_")
             q = self.stmt(k + 1, limit)
             self.emit("endLoop")
             return q
         if t == "do":
-            q = self.stmt(i + 1, limit)
-            if T[q].t != "while" or T[q + 1].t != "(":
+            # find the `while ( cond ) ;` that closes it
+            b0 = i + 1
+            if T[b0].t != "{":
+                raise TranslateError("text pass: do-while without braces at offset %d is not supported" % T[i].off)
+            w = self.match[b0] + 1
+            if T[w].t != "while" or T[w + 1].t != "(":
                 raise TranslateError("text pass: malformed do-while at offset %d" % T[i].off)
-            k = self.match[q + 1]
-            raise TranslateError("text pass: do-while at offset %d is not supported" % T[i].off)
+            k = self.match[w + 1]
+            self.emit("loop", "", ["do"] + self.cond_args(w + 2, k), [self.rx(w + 2, k)])
+            self.emit("do_")
+            self.stmt(b0, limit)
+            self.emit("incr_")
+            self.scan_expr(w + 2, k)
+            self.emit("endLoop")
+            return k + 2 if T[k + 1].t == ";" else k + 1
         if t == "for":
             j = i + 1
             k = self.match[j]
@@ -654,7 +895,8 @@ class TextPass:
                 if T[c - 1].kind != "id":
                     raise TranslateError("text pass: range-for declarator at offset %d is not supported" % T[i].off)
                 self.scan_expr(c + 1, k)
-                self.emit("loop", "", ["range", T[c - 1].t, self.text(c + 1, k)])
+                self.emit("loop", "", ["range", T[c - 1].t, self.text(c + 1, k)], [self.rx(c + 1, k)])
+                self.emit("do_")
                 q = self.stmt(k + 1, limit)
                 self.emit("endLoop")
                 return q
@@ -664,19 +906,20 @@ class TextPass:
             if s1 > j + 1:
                 self.simple_stmt(j + 1, s1)
             cond = self.cond_args(s1 + 1, s2) if s2 > s1 + 1 else ["?", ""]
-            self.emit("loop", "", ["for"] + cond)
+            self.emit("loop", "", ["for"] + cond, [self.rx(s1 + 1, s2)])
             self.scan_expr(s1 + 1, s2)
+            self.emit("do_")
             q = self.stmt(k + 1, limit)
             if k > s2 + 1:
-                self.scan_expr(s2 + 1, k)
-                self.emit("step", "", [self.text(s2 + 1, k)])
+                self.emit("incr_")
+                self.expr_stmt(s2 + 1, k)
             self.emit("endLoop")
             return q
         if t == "switch":
             j = i + 1
             k = self.match[j]
             self.scan_expr(j + 1, k)
-            self.emit("switch_", "", [self.text(j + 1, k)])
+            self.emit("switch_", "", [self.text(j + 1, k)], [self.rx(j + 1, k)])
             q = self.stmt(k + 1, limit)
             self.emit("endSwitch")
             return q
@@ -704,10 +947,10 @@ class TextPass:
         e = self.stmt_end(i, limit)
         if t == "return":
             self.scan_expr(i + 1, e)
-            self.emit("ret", "", [self.text(i + 1, e)] if e > i + 1 else [])
+            self.emit("ret", "", [self.text(i + 1, e)] if e > i + 1 else [], [self.rx(i + 1, e)] if e > i + 1 else [])
         elif t == "throw":
             self.scan_expr(i + 1, e)
-            self.emit("throw_", "", [self.text(i + 1, e)] if e > i + 1 else [])
+            self.emit("throw_", "", [self.text(i + 1, e)] if e > i + 1 else [], [self.rx(i + 1, e)] if e > i + 1 else [])
         elif t == "continue":
             self.emit("continue_")
         elif t == "break":
@@ -803,15 +1046,14 @@ class TextPass:
         T = self.toks
         d = self.try_decl(a, e)
         if d is None:
-            self.scan_expr(a, e)
-            if e > a and (T[a].t in ("++", "--") or T[e - 1].t in ("++", "--")):
-                self.emit("step", "", [self.text(a, e)])
+            self.expr_stmt(a, e)
             return
         q = d
         while True:
             name = T[q].t
             q += 1
             init = ""
+            x = []
             stop = q
             # end of this declarator: top-level ','
             while stop < e and T[stop].t != ",":
@@ -826,10 +1068,13 @@ class TextPass:
                 stop += 1
             if q < stop and T[q].t == "=":
                 init = self.text(q + 1, stop)
+                x = [self.rx(q + 1, stop)]
             elif q < stop and T[q].t in ("(", "{") and self.match[q] == stop - 1:
                 init = self.text(q, stop)
+                if T[q].t == "{":
+                    x = [self.rx(q, stop)]
             self.scan_expr(q, stop)
-            self.emit("decl", "", [name, init] + self.subscript_parts(init))
+            self.emit("decl", "", [name, init] + self.subscript_parts(init), x)
             if stop >= e:
                 break
             q = stop + 1
@@ -890,6 +1135,38 @@ class TextPass:
             parts.append((s, b))
         return parts
 
+    def for_each_parts(self, call, close):
+        """std::for_each(C.begin(), C.end(), [..](T &v) {..}) -> (container token range, deref?, v, body braces) or None"""
+        T = self.toks
+        parts = self.split_args(call + 1, close)
+        if len(parts) != 3:
+            return None
+        (b0, b1), (e0, e1), (l0, l1) = parts
+        if b1 - b0 < 4 or e1 - e0 < 4 or T[b1 - 1].t != ")" or T[b1 - 2].t != "(" or T[e1 - 1].t != ")" or T[e1 - 2].t != "(":
+            return None
+        if T[b1 - 3].t != "begin" or T[e1 - 3].t != "end" or T[b1 - 4].t not in (".", "->") or T[e1 - 4].t != T[b1 - 4].t:
+            return None
+        if self.text(b0, b1 - 4) != self.text(e0, e1 - 4):
+            return None
+        if T[l0].t != "[" or T[self.match[l0] + 1].t != "(":
+            return None
+        p0 = self.match[l0] + 1
+        p1 = self.match[p0]
+        if p1 - p0 < 2 or T[p1 - 1].kind != "id" or any(T[z].t == "," for z in range(p0, p1)):
+            return None
+        g = p1 + 1
+        while g < l1 and T[g].t != "{":
+            if not (T[g].kind == "id"):
+                return None
+            g += 1
+        if g >= l1 or self.match[g] != l1 - 1:
+            return None
+        return (b0, b1 - 4), T[b1 - 4].t == "->", T[p1 - 1].t, (g, l1 - 1)
+
+    def deref_text(self, a, b):
+        s = self.text(a, b)
+        return "*" + s if re.match(r"^\w+$", s) else "*(" + s + ")"
+
     def scan_expr(self, a, b):
         T = self.toks
         q = a
@@ -929,7 +1206,7 @@ class TextPass:
                         ls = self.match[ls - 1]
                         continue
                     ls -= 1
-                self.emit("streamIn", "", [self.text(ls, q), self.text(q + 1, hi)])
+                self.emit("streamIn", "", [self.text(ls, q), self.text(q + 1, hi)], [self.rx(ls, q), self.rx(q + 1, hi)])
                 q += 1
                 continue
             if tk.kind != "id" or tk.t in KEYWORDS:
@@ -941,11 +1218,14 @@ class TextPass:
             # bucket array: subscript / assignment
             if name in BUCKET_ARRAYS and nxt in ("[", "="):
                 recv = ""
+                rxr = []
                 if member:
                     dot = q - 1 if prev in (".", "->") else q - 2
-                    recv = self.text(self.receiver(dot, a), dot)
+                    rs = self.receiver(dot, a)
+                    recv = self.text(rs, dot)
+                    rxr = self.rx(rs, dot)
                 if nxt == "[":
-                    self.emit("bucketAt", recv, [name, self.text(q + 2, self.match[q + 1])])
+                    self.emit("bucketAt", recv, [name, self.text(q + 2, self.match[q + 1])], [rxr, self.rx(q + 2, self.match[q + 1])])
                 else:
                     e = q + 2
                     while e < b and T[e].t != ",":
@@ -953,9 +1233,27 @@ class TextPass:
                             e = self.match[e] + 1
                             continue
                         e += 1
-                    self.emit("bucketsAssign", recv, [name, self.text(q + 2, e)])
+                    self.emit("bucketsAssign", recv, [name, self.text(q + 2, e)], [rxr, self.rx(q + 2, e)])
                 q += 1
                 continue
+            # std::for_each over a whole container = a range loop
+            if name == "for_each" and nxt == "(" and not member and (prev != "::" or (q - 2 >= a and T[q - 2].t == "std")):
+                fe = self.for_each_parts(q + 1, self.match[q + 1])
+                if fe is not None:
+                    (c0, c1), arrow, var, (g0, g1) = fe
+                    self.scan_expr(c0, c1)
+                    ctext = self.deref_text(c0, c1) if arrow else self.text(c0, c1)
+                    cx = self.rx(c0, c1)
+                    if arrow and cx != UNK:
+                        cx = cx + [("op", "u*")]
+                    self.emit("loop", "", ["range", var, ctext], [cx])
+                    self.emit("do_")
+                    z = g0 + 1
+                    while z < g1:
+                        z = self.stmt(z, g1)
+                    self.emit("endLoop")
+                    q = self.match[q + 1] + 1
+                    continue
             # call: name ( ...   or   name <targs> ( ...
             call = None
             targs = None
@@ -973,9 +1271,13 @@ class TextPass:
             parts = self.split_args(call + 1, close)
             args = [self.text(x, y) for x, y in parts]
             recv = ""
+            rxr = []
             if member:
                 dot = q - 1 if prev in (".", "->") else q - 2
-                recv = self.text(self.receiver(dot, a), dot)
+                rs = self.receiver(dot, a)
+                recv = self.text(rs, dot)
+                rxr = self.rx(rs, dot)
+            xs = [rxr] + [self.rx(x, y) for x, y in parts]
             free = (not member) and (prev != "::" or (q - 2 >= a and T[q - 2].t == "std"))
             if prev == "::" and not member and not (q - 2 >= a and T[q - 2].t == "std"):
                 free = False
@@ -990,16 +1292,16 @@ class TextPass:
                         e = self.match[e] + 1
                         continue
                     e += 1
-                self.emit("setMigrated", recv, [self.text(close + 2, e)])
+                self.emit("setMigrated", recv, [self.text(close + 2, e)], [rxr, self.rx(close + 2, e)])
             elif kind in ("lock", "unlock", "tryLock"):
-                self.emit(kind, recv, self.subscript_parts(recv))
+                self.emit(kind, recv, self.subscript_parts(recv), [rxr])
             else:
                 pre = [targs] if targs is not None else []
                 if kind in ("bucketsSwap", "bucketsMeth"):
                     pre = [name] + pre
                 if kind == "parallelExec":
-                    pre, args = [], []
-                self.emit(kind, recv, pre + args)
+                    pre, args, xs = [], [], []
+                self.emit(kind, recv, pre + args, xs)
             q += 1
 
     @staticmethod
@@ -1240,9 +1542,6 @@ class AstPass:
         self.stmt(body)
         return self.out
 
-    def emit(self, k, r="", a=(), alt=None):
-        self.out.append(Act(k, r, a, alt))
-
     def cond_args(self, n):
         m = self.strip(n)
         text = self.ntext(n)
@@ -1257,6 +1556,223 @@ class AstPass:
                 simple = [nm[8:], self.ntext(self.kids(m)[1]), self.ntext(self.kids(m)[2])]
         return simple, ["?", text]
 
+    def emit(self, k, r="", a=(), alt=None, x=()):
+        self.out.append(Act(k, r, a, alt, x))
+
+    # ---- operands in postfix form (post-order walk of clang's tree) --------------------------------------------
+    ASSIGN_OPS = ("=", "+=", "-=", "*=", "/=", "%=", "&=", "|=", "^=", "<<=", ">>=")
+
+    def rx(self, n):
+        if not n:
+            return []
+        try:
+            return self.rpn(n)
+        except (Unsupported, TranslateError, KeyError, IndexError, RecursionError):
+            return list(UNK)
+
+    def op_callee(self, m):
+        callee = self.strip(self.kids(m)[0]) if self.kids(m) else {}
+        nm = callee.get("referencedDecl", {}).get("name", "") or callee.get("name", "")
+        return nm[8:] if nm.startswith("operator") else None
+
+    def spelled_before_bracket(self, n):
+        """(normalised text of the tokens before the first top-level ( or { of n's slice, without trailing template
+        arguments ; that bracket or None)"""
+        b, e = self.rng(n)
+        toks = tokenize(blank_comments_strings(self.src[b:e]), b)
+        d = 0
+        cut = None
+        for i, t in enumerate(toks):
+            if t.kind == "op" and t.t in ("(", "{") and d == 0:
+                cut = i
+                break
+            if t.t == "<":
+                d += 1
+            elif t.t == ">":
+                d -= 1
+            elif t.t == ">>":
+                d -= 2
+        if cut is None:
+            return None, None
+        head = toks[:cut]
+        if head and head[-1].t in (">", ">>"):
+            d = 0
+            p = len(head) - 1
+            while p >= 0:
+                if head[p].t == ">":
+                    d += 1
+                elif head[p].t == ">>":
+                    d += 2
+                elif head[p].t == "<":
+                    d -= 1
+                    if d == 0:
+                        break
+                p -= 1
+            if p <= 0:
+                raise Unsupported()
+            head = head[:p]
+        if not head:
+            return None, None
+        return norm_tokens([t.t for t in head]), toks[cut].t
+
+    def rpn(self, n):
+        k = n.get("kind")
+        ch = [c for c in self.kids(n) if c]
+        if k in TRANSPARENT or k in ("ParenExpr", "CXXStaticCastExpr", "CXXReinterpretCastExpr", "CXXConstCastExpr"):
+            if len(ch) != 1:
+                raise Unsupported()
+            return self.rpn(ch[0])
+        if k == "IntegerLiteral":
+            return [("num", int(n.get("value")))]
+        if k == "CXXBoolLiteralExpr":
+            return [("num", 1 if n.get("value") else 0)]
+        if k == "CXXNullPtrLiteralExpr":
+            return [("num", 0)]
+        if k == "CXXThisExpr":
+            if n.get("implicit"):
+                raise Unsupported()
+            return [("var", "this")]
+        if k in ("DeclRefExpr", "DependentScopeDeclRefExpr", "UnresolvedLookupExpr"):
+            return [("var", self.ntext(n))]
+        if k in ("MemberExpr", "CXXDependentScopeMemberExpr", "UnresolvedMemberExpr"):
+            name = n.get("name") or n.get("member")
+            if not name:
+                raise Unsupported()
+            if not ch or (self.strip(ch[0]).get("kind") == "CXXThisExpr" and self.strip(ch[0]).get("implicit")):
+                return [("var", self.ntext(n))]
+            return self.rpn(ch[0]) + [("mem", name, self.ntext(n))]
+        if k == "ArraySubscriptExpr":
+            return self.rpn(ch[0]) + self.rpn(ch[1]) + [("sub", self.ntext(n))]
+        if k == "UnaryOperator":
+            o = n.get("opcode")
+            if o not in ("!", "-", "+", "*", "&", "~", "++", "--"):
+                raise Unsupported()
+            return self.rpn(ch[0]) + [("op", ("p" if n.get("isPostfix") and o in ("++", "--") else "u") + o)]
+        if k == "BinaryOperator":
+            o = n.get("opcode")
+            if o in self.ASSIGN_OPS or o in (",", ".*", "->*", "<=>"):
+                raise Unsupported()
+            return self.rpn(ch[0]) + self.rpn(ch[1]) + [("op", o)]
+        if k == "ConditionalOperator":
+            return self.rpn(ch[0]) + self.rpn(ch[1]) + self.rpn(ch[2]) + [("op", "?:")]
+        if k in ("CallExpr", "CXXMemberCallExpr"):
+            info = self.callee_info(ch[0]) if ch else None
+            if not info:
+                raise Unsupported()
+            name, off, recv, targs, free = info
+            args = [a for a in ch[1:] if a.get("kind") != "CXXDefaultArgExpr"]
+            r = []
+            for a in args:
+                r += self.rpn(a)
+            callee = self.strip_paren(ch[0])
+            if callee.get("kind") in ("MemberExpr", "CXXDependentScopeMemberExpr", "UnresolvedMemberExpr"):
+                if recv is not None:
+                    return self.rpn(recv) + r + [("call", "." + name, len(args) + 1, self.ntext(n))]
+                return r + [("call", name, len(args), self.ntext(n))]
+            spelled, br = self.spelled_before_bracket(n)
+            if spelled is None or br != "(":
+                raise Unsupported()
+            return r + [("call", spelled, len(args), self.ntext(n))]
+        if k == "CXXOperatorCallExpr":
+            o = self.op_callee(n)
+            ops = ch[1:]
+            if o == "[]" and len(ops) == 2:
+                return self.rpn(ops[0]) + self.rpn(ops[1]) + [("sub", self.ntext(n))]
+            if o == "->" and len(ops) == 1:
+                return self.rpn(ops[0])
+            if o in ("++", "--"):
+                return self.rpn(ops[0]) + [("op", ("p" if len(ops) == 2 else "u") + o)]
+            if o in ("!", "*", "-", "&", "~") and len(ops) == 1:
+                return self.rpn(ops[0]) + [("op", "u" + o)]
+            if o is None or o in self.ASSIGN_OPS or o in ("()", ",") or len(ops) != 2:
+                raise Unsupported()
+            return self.rpn(ops[0]) + self.rpn(ops[1]) + [("op", o)]
+        if k in ("CXXFunctionalCastExpr", "CXXUnresolvedConstructExpr", "CXXTemporaryObjectExpr", "CXXConstructExpr"):
+            spelled, br = self.spelled_before_bracket(n)
+            if spelled is None or (ch and self.rng(ch[0]) == self.rng(n)):
+                if len(ch) == 1:
+                    return self.rpn(ch[0])        # implicit construction / conversion
+                raise Unsupported()
+            args = ch
+            if br == "{" and len(ch) == 1 and self.strip(ch[0]).get("kind") == "InitListExpr" and \
+                    self.ntext(ch[0]) == self.ntext(n)[len(spelled):]:
+                args = [c for c in self.kids(self.strip(ch[0])) if c]
+            r = []
+            for a in args:
+                if a.get("kind") == "CXXDefaultArgExpr":
+                    continue
+                r += self.rpn(a)
+            return r + [("call", spelled, len([a for a in args if a.get("kind") != "CXXDefaultArgExpr"]), self.ntext(n))]
+        if k == "InitListExpr":
+            r = []
+            for a in ch:
+                r += self.rpn(a)
+            return r + [("lst", len(ch))]
+        raise Unsupported()
+
+    def expr_stmt(self, n):
+        """expression statement / for-increment: its actions, then `assign` / `step` if it is one"""
+        self.full_expr(n)
+        m = self.strip(n)
+        k = m.get("kind")
+        ch = [c for c in self.kids(m) if c]
+        o = None
+        ops = ch
+        if k in ("BinaryOperator", "CompoundAssignOperator"):
+            o = m.get("opcode")
+        elif k == "UnaryOperator":
+            o = m.get("opcode")
+        elif k == "CXXOperatorCallExpr":
+            o = self.op_callee(m)
+            ops = ch[1:]
+        if o == "=" and len(ops) == 2:
+            self.emit("assign", "", [self.ntext(ops[0]), self.ntext(ops[1])], None, [self.rx(ops[1])])
+        elif o in self.ASSIGN_OPS and o != "=" and len(ops) == 2:
+            x, y = self.rx(ops[0]), self.rx(ops[1])
+            nv = list(UNK) if x == UNK or y == UNK else x + y + [("op", o[:-1])]
+            self.emit("step", "", [self.ntext(n), self.ntext(ops[0])], None, [nv])
+        elif o in ("++", "--") and k in ("UnaryOperator", "CXXOperatorCallExpr") and len(ops) >= 1:
+            x = self.rx(ops[0])
+            nv = list(UNK) if x == UNK else x + [("num", 1), ("op", o[0])]
+            self.emit("step", "", [self.ntext(n), self.ntext(ops[0])], None, [nv])
+
+    def for_each_parts(self, args):
+        """std::for_each(C.begin(), C.end(), [..](T &v) {..}) -> (container node, deref?, v, body) or None"""
+        if len(args) != 3:
+            return None
+        ends = []
+        for a, nm in ((args[0], "begin"), (args[1], "end")):
+            m = self.strip(a)
+            if m.get("kind") not in ("CallExpr", "CXXMemberCallExpr"):
+                return None
+            kk = [c for c in self.kids(m) if c]
+            if len(kk) != 1:
+                return None
+            cal = self.strip_paren(kk[0])
+            if cal.get("kind") not in ("MemberExpr", "CXXDependentScopeMemberExpr") or (cal.get("name") or cal.get("member")) != nm:
+                return None
+            base = [c for c in self.kids(cal) if c]
+            if len(base) != 1 or (self.strip(base[0]).get("kind") == "CXXThisExpr" and self.strip(base[0]).get("implicit")):
+                return None
+            ends.append((base[0], bool(cal.get("isArrow"))))
+        if self.ntext(ends[0][0]) != self.ntext(ends[1][0]) or ends[0][1] != ends[1][1]:
+            return None
+        lam = self.strip(args[2])
+        if lam.get("kind") != "LambdaExpr":
+            return None
+        body = [c for c in self.kids(lam) if c.get("kind") == "CompoundStmt"]
+        ps = []
+        for c in self.kids(lam):
+            if c.get("kind") == "CXXRecordDecl":
+                for mth in self.kids(c):
+                    if mth.get("kind") == "CXXMethodDecl" and mth.get("name") == "operator()":
+                        ps = [p for p in self.kids(mth) if p.get("kind") == "ParmVarDecl"]
+                    if mth.get("kind") == "FunctionTemplateDecl":
+                        return None
+        if len(body) != 1 or len(ps) != 1 or not ps[0].get("name"):
+            return None
+        return ends[0][0], ends[0][1], ps[0]["name"], body[0]
+
     def stmt(self, n):
         k = n.get("kind")
         if not n or k is None or k == "NullStmt":
@@ -1269,16 +1785,20 @@ class AstPass:
                 ck = c.get("kind")
                 if ck == "VarDecl":
                     init = ""
-                    ch = [x for x in self.kids(c) if x.get("kind") not in ("FullComment",)]
+                    x = []
+                    ch = [y for y in self.kids(c) if y.get("kind") not in ("FullComment",)]
                     if ch:
                         self.full_expr(ch[0])
                         if c.get("init") == "c":
                             init = self.ntext(ch[0])
+                            x = [self.rx(ch[0])]
                         elif c.get("init") in ("call", "list"):
                             # direct initialisation: the text between the declared name and the end of the declarator
                             noff, nlen = self.loc(c["loc"])
                             init = norm_text(blank_comments_strings(self.src[noff + nlen:self.rng(c)[1]]))
-                    self.emit("decl", "", [c.get("name", ""), init] + (self.sub_parts(ch[0]) if c.get("init") == "c" else []))
+                            if c.get("init") == "list":
+                                x = [self.rx(ch[0]) if self.strip(ch[0]).get("kind") == "InitListExpr" else list(UNK)]
+                    self.emit("decl", "", [c.get("name", ""), init] + (self.sub_parts(ch[0]) if c.get("init") == "c" else []), None, x)
                 elif ck in ("StaticAssertDecl", "TypeAliasDecl", "TypedefDecl", "UsingDecl", "EmptyDecl"):
                     if ck != "StaticAssertDecl":
                         raise TranslateError("AST pass: unsupported local declaration %s" % ck)
@@ -1289,7 +1809,7 @@ class AstPass:
                 raise TranslateError("AST pass: if with init-statement / condition variable is not supported")
             ch = self.kids(n)
             simple, alt = self.cond_args(ch[0])
-            self.emit("if_", "", simple or alt, alt)
+            self.emit("if_", "", simple or alt, alt, [self.rx(ch[0])])
             self.full_expr(ch[0])
             self.emit("then_")
             self.stmt(ch[1])
@@ -1302,8 +1822,9 @@ class AstPass:
             if n.get("hasVar") or len(ch) != 2:
                 raise TranslateError("AST pass: while with a condition variable is not supported")
             simple, alt = self.cond_args(ch[0])
-            self.emit("loop", "", ["while"] + (simple or alt), ["while"] + alt)
+            self.emit("loop", "", ["while"] + (simple or alt), ["while"] + alt, [self.rx(ch[0])])
             self.full_expr(ch[0])
+            self.emit("do_")
             self.stmt(ch[1])
             self.emit("endLoop")
         elif k == "DoStmt":
@@ -1311,7 +1832,15 @@ class AstPass:
             cond = self.strip_paren(ch[1])
             if ch[0].get("kind") == "CompoundStmt" and not self.kids(ch[0]) and cond.get("kind") == "IntegerLiteral" and cond.get("value") == "0":
                 return   # `do {} while (0)` : an expanded no-op debug macro
-            raise TranslateError("AST pass: do-while is not supported")
+            if ch[0].get("kind") != "CompoundStmt":
+                raise TranslateError("AST pass: do-while without braces is not supported")
+            simple, alt = self.cond_args(ch[1])
+            self.emit("loop", "", ["do"] + (simple or alt), ["do"] + alt, [self.rx(ch[1])])
+            self.emit("do_")
+            self.stmt(ch[0])
+            self.emit("incr_")
+            self.full_expr(ch[1])
+            self.emit("endLoop")
         elif k == "ForStmt":
             ch = self.kids(n)
             if len(ch) != 5 or ch[1]:
@@ -1322,25 +1851,27 @@ class AstPass:
                 simple, alt = self.cond_args(ch[2])
             else:
                 simple, alt = None, ["?", ""]
-            self.emit("loop", "", ["for"] + (simple or alt), ["for"] + alt)
+            self.emit("loop", "", ["for"] + (simple or alt), ["for"] + alt, [self.rx(ch[2])])
             if ch[2]:
                 self.full_expr(ch[2])
+            self.emit("do_")
             self.stmt(ch[4])
             if ch[3]:
-                self.full_expr(ch[3])
-                self.emit("step", "", [self.ntext(ch[3])])
+                self.emit("incr_")
+                self.expr_stmt(ch[3])
             self.emit("endLoop")
         elif k == "CXXForRangeStmt":
             ch = self.kids(n)
             if len(ch) != 8 or ch[0]:
                 raise TranslateError("AST pass: unsupported range-for statement")
-            rv = [x for x in self.kids(ch[1]) if x.get("kind") == "VarDecl"]
-            lv = [x for x in self.kids(ch[6]) if x.get("kind") == "VarDecl"]
+            rv = [y for y in self.kids(ch[1]) if y.get("kind") == "VarDecl"]
+            lv = [y for y in self.kids(ch[6]) if y.get("kind") == "VarDecl"]
             if len(rv) != 1 or len(lv) != 1 or not self.kids(rv[0]):
                 raise TranslateError("AST pass: unsupported range-for statement")
             rexpr = self.kids(rv[0])[0]
             self.full_expr(rexpr)
-            self.emit("loop", "", ["range", lv[0].get("name", ""), self.ntext(rexpr)])
+            self.emit("loop", "", ["range", lv[0].get("name", ""), self.ntext(rexpr)], None, [self.rx(rexpr)])
+            self.emit("do_")
             self.stmt(ch[7])
             self.emit("endLoop")
         elif k == "SwitchStmt":
@@ -1348,7 +1879,7 @@ class AstPass:
             if len(ch) != 2:
                 raise TranslateError("AST pass: unsupported switch statement")
             self.full_expr(ch[0])
-            self.emit("switch_", "", [self.ntext(ch[0])])
+            self.emit("switch_", "", [self.ntext(ch[0])], None, [self.rx(ch[0])])
             self.stmt(ch[1])
             self.emit("endSwitch")
         elif k == "CaseStmt":
@@ -1376,7 +1907,7 @@ class AstPass:
             ch = [c for c in self.kids(n) if c]
             if ch:
                 self.full_expr(ch[0])
-            self.emit("ret", "", [self.ntext(ch[0])] if ch else [])
+            self.emit("ret", "", [self.ntext(ch[0])] if ch else [], None, [self.rx(ch[0])] if ch else [])
         elif k == "ContinueStmt":
             self.emit("continue_")
         elif k == "BreakStmt":
@@ -1384,15 +1915,7 @@ class AstPass:
         elif k in ("GotoStmt", "LabelStmt", "AttributedStmt", "CoreturnStmt"):
             raise TranslateError("AST pass: unsupported statement %s" % k)
         else:
-            self.full_expr(n)
-            m = self.strip(n)
-            if m.get("kind") == "UnaryOperator" and m.get("opcode") in ("++", "--"):
-                self.emit("step", "", [self.ntext(n)])
-            elif m.get("kind") == "CXXOperatorCallExpr":
-                callee = self.strip(self.kids(m)[0]) if self.kids(m) else {}
-                nm = callee.get("referencedDecl", {}).get("name", "") or callee.get("name", "")
-                if nm in ("operator++", "operator--"):
-                    self.emit("step", "", [self.ntext(n)])
+            self.expr_stmt(n)
 
     def sub_parts(self, n):
         """[base, index] if n is a subscript expression"""
@@ -1496,7 +2019,7 @@ class AstPass:
             self.out = []
             if ch:
                 self.full_expr(ch[0])
-            self.emit("throw_", "", [self.ntext(ch[0])] if ch else [])
+            self.emit("throw_", "", [self.ntext(ch[0])] if ch else [], None, [self.rx(ch[0])] if ch else [])
             acts, self.out = self.out, saved
             items.append(((self.rng(n)[0], 0), acts))
             return
@@ -1505,23 +2028,45 @@ class AstPass:
             info = self.callee_info(ch[0]) if ch else None
             if info:
                 name, off, recv, targs, free = info
+                if name == "for_each" and recv is None and free:
+                    fe = self.for_each_parts([a for a in ch[1:] if a.get("kind") != "CXXDefaultArgExpr"])
+                    if fe is not None:
+                        cnode, arrow, var, body = fe
+                        saved = self.out
+                        self.out = []
+                        self.full_expr(cnode)
+                        ctext = self.ntext(cnode)
+                        cx = self.rx(cnode)
+                        if arrow:
+                            ctext = "*" + ctext if re.match(r"^\w+$", ctext) else "*(" + ctext + ")"
+                            if cx != UNK:
+                                cx = cx + [("op", "u*")]
+                        self.emit("loop", "", ["range", var, ctext], None, [cx])
+                        self.emit("do_")
+                        self.stmt(body)
+                        self.emit("endLoop")
+                        acts, self.out = self.out, saved
+                        items.append(((off, 0), acts))
+                        return
                 if name in SIMPLE_CALLS or name in SPECIAL_CALLS:
                     args = [a for a in ch[1:] if a.get("kind") != "CXXDefaultArgExpr"]
                     rtext = self.ntext(recv) if recv is not None else ""
+                    rxr = self.rx(recv) if recv is not None else []
                     kind = classify(name, rtext, len(args), free and name == "swap")
                     if kind is not None:
                         atexts = [self.ntext(a) for a in args]
+                        xs = [rxr] + [self.rx(a) for a in args]
                         if kind == "isMigrated" and ctx and ctx[0] == "assign_lhs" and ctx[1] is n:
-                            act = Act("setMigrated", rtext, [self.ntext(ctx[2])])
+                            act = Act("setMigrated", rtext, [self.ntext(ctx[2])], None, [rxr, self.rx(ctx[2])])
                         elif kind in ("lock", "unlock", "tryLock"):
-                            act = Act(kind, rtext, self.sub_parts(recv))
+                            act = Act(kind, rtext, self.sub_parts(recv), None, [rxr])
                         else:
                             pre = [targs] if targs is not None else []
                             if kind in ("bucketsSwap", "bucketsMeth"):
                                 pre = [name] + pre
                             if kind == "parallelExec":
-                                pre, atexts = [], []
-                            act = Act(kind, rtext, pre + atexts)
+                                pre, atexts, xs = [], [], []
+                            act = Act(kind, rtext, pre + atexts, None, xs)
                         items.append(((off, 0), [act]))
             for c in ch:
                 self.expr(c, items, None)
@@ -1542,10 +2087,12 @@ class AstPass:
                     name = lhs.get("name") or lhs.get("member")
                     b, e = self.rng(lhs)
                     recv = ""
+                    rxr = []
                     lk = [x for x in self.kids(lhs) if x]
                     if lk and not (self.strip(lk[0]).get("kind") == "CXXThisExpr" and self.strip(lk[0]).get("implicit")):
                         recv = self.ntext(lk[0])
-                    items.append(((e - len(name), 0), [Act("bucketsAssign", recv, [name, self.ntext(ops[1])])]))
+                        rxr = self.rx(lk[0])
+                    items.append(((e - len(name), 0), [Act("bucketsAssign", recv, [name, self.ntext(ops[1])], None, [rxr, self.rx(ops[1])])]))
                     self.expr(ops[1], items, None)
                     for x in lk:
                         self.expr(x, items, None)
@@ -1556,7 +2103,7 @@ class AstPass:
                     return
             if op == ">>" and len(ops) == 2:
                 rb, _ = self.rng(ops[1])
-                items.append(((rb, -1), [Act("streamIn", "", [self.ntext(ops[0]), self.ntext(ops[1])])]))
+                items.append(((rb, -1), [Act("streamIn", "", [self.ntext(ops[0]), self.ntext(ops[1])], None, [self.rx(ops[0]), self.rx(ops[1])])]))
             for c in (ops if k == "CXXOperatorCallExpr" else ch):
                 self.expr(c, items, ctx if k == "ParenExpr" else None)
             return
@@ -1567,10 +2114,12 @@ class AstPass:
                 name = base.get("name") or base.get("member")
                 b, e = self.rng(base)
                 recv = ""
+                rxr = []
                 lk = [x for x in self.kids(base) if x]
                 if lk and not (self.strip(lk[0]).get("kind") == "CXXThisExpr" and self.strip(lk[0]).get("implicit")):
                     recv = self.ntext(lk[0])
-                items.append(((e - len(name), 0), [Act("bucketAt", recv, [name, self.ntext(ch[1])])]))
+                    rxr = self.rx(lk[0])
+                items.append(((e - len(name), 0), [Act("bucketAt", recv, [name, self.ntext(ch[1])], None, [rxr, self.rx(ch[1])])]))
             for c in ch:
                 self.expr(c, items, None)
             return
@@ -1590,6 +2139,9 @@ class AstPass:
 # ----------------------------------------------------------------------------------------------------------------
 
 
+RPN_STATS = {"agree": 0, "unk": 0, "differ": 0}
+
+
 def compare(key, ta, aa):
     n = max(len(ta), len(aa))
     for i in range(n):
@@ -1598,11 +2150,45 @@ def compare(key, ta, aa):
         same = x is not None and y is not None and (x.key() == y.key() or (y.alt is not None and x.k == y.k and x.r == y.r and x.a == y.alt))
         if not same:
             return "%s: action %d differs: text pass %r, AST pass %r" % (key, i, x, y)
+        # postfix forms: kept only where both extractions produced the same one
+        if len(x.x) != len(y.x):
+            if os.environ.get("SYNCSKEL_DEBUG"):
+                print("RPN slots differ", key, i, x, x.x, y.x)
+            x.x = [list(UNK) for _ in x.x]
+            RPN_STATS["differ"] += 1
+            continue
+        for q in range(len(x.x)):
+            if x.x[q] == y.x[q]:
+                RPN_STATS["unk" if x.x[q] == UNK else "agree"] += 1
+            else:
+                if x.x[q] != UNK and y.x[q] != UNK:
+                    RPN_STATS["differ"] += 1
+                    if os.environ.get("SYNCSKEL_DEBUG"):
+                        print("RPN differs", key, i, x, "\n  text", x.x[q], "\n  ast ", y.x[q])
+                else:
+                    RPN_STATS["unk"] += 1
+                    if os.environ.get("SYNCSKEL_DEBUG"):
+                        print("RPN one-sided", key, i, x, "\n  text", x.x[q], "\n  ast ", y.x[q])
+                x.x[q] = list(UNK)
     return None
 
 
 def lean_str(s):
     return '"' + s.replace("\\", "\\\\").replace('"', '\\"') + '"'
+
+
+def lean_tk(t):
+    if t[0] == "num":
+        return ".num %d" % t[1]
+    if t[0] in ("var", "op", "sub"):
+        return ".%s %s" % (t[0], lean_str(t[1]))
+    if t[0] == "call":
+        return ".call %s %d %s" % (lean_str(t[1]), t[2], lean_str(t[3]))
+    if t[0] == "mem":
+        return ".mem %s %s" % (lean_str(t[1]), lean_str(t[2]))
+    if t[0] == "lst":
+        return ".lst %d" % t[1]
+    return ".unk"
 
 
 def lean_ident(key):
@@ -1674,8 +2260,8 @@ def main():
     out = ["-- GENERATED by translate/syncskel.py from libcuckoo/cuckoohash_map.hh: the ordered skeleton of the",
            "-- synchronisation-relevant actions of every protocol function.  Text pass (comments, strings, LIBCUCKOO_VERIF",
            "-- branches, hook / debug / assert macros blanked; statement parser + vocabulary scanner) cross-checked action by",
-           "-- action (kind, receiver, operands, structure markers) against clang's JSON AST of the class template pattern",
-           "-- (all %d functions via the AST; no function needed the text-only fallback).  DO NOT EDIT." % len(skels),
+           "-- action (kind, receiver, operands, structure markers, operands in postfix form) against clang's JSON AST of the",
+           "-- class template pattern (all %d functions via the AST; no function needed the text-only fallback).  DO NOT EDIT." % len(skels),
            "namespace Cuckoo.Gen.Sync", "",
            "/-- kind of an action / structure marker -/",
            "inductive K"]
@@ -1687,15 +2273,26 @@ def main():
         line += " | " + k
     out.append(line)
     out += ["deriving DecidableEq, Repr", "",
-            "/-- one action: kind, receiver text (\"\" = implicit `this` / none), operand texts -/",
+            "/-- token of an operand in postfix form: `call f n t` = call of `f` (\".m\" = member `m`, the receiver is the",
+            "first operand) with `n` operands, source text `t`; `mem m t` = member access; `sub t` = subscript; `lst n` = braced",
+            "list of `n` elements; `op` = operator (`u!` `u*` `u&` `u-` prefix, `p++` postfix, `?:`); `unk` = not representable -/",
+            "inductive Tk",
+            "  | num (n : Nat) | var (s : String) | op (o : String) | call (f : String) (n : Nat) (t : String)",
+            "  | mem (m : String) (t : String) | sub (t : String) | lst (n : Nat) | unk",
+            "deriving DecidableEq, Repr", "",
+            "/-- one action: kind, receiver text (\"\" = implicit `this` / none), operand texts, and the postfix forms `x`:",
+            "calls: receiver (or `[]`) then every argument; `if_` / `loop`: the condition (range loop: the container);",
+            "`decl` / `assign`: the initialiser / right-hand side; `step`: the new value; `ret` / `throw_`: the operand -/",
             "structure Act where",
             "  k : K",
             "  r : String",
             "  a : List String",
+            "  x : List (List Tk)",
             "deriving DecidableEq, Repr", ""]
     for key, sk in skels:
         out.append("def %s : List Act := [" % lean_ident(key))
-        rows = ["  ⟨.%s, %s, [%s]⟩" % (a.k, lean_str(a.r), ", ".join(lean_str(x) for x in a.a)) for a in sk]
+        rows = ["  ⟨.%s, %s, [%s], [%s]⟩" % (a.k, lean_str(a.r), ", ".join(lean_str(x) for x in a.a),
+                                         ", ".join("[" + ", ".join(lean_tk(t) for t in e) + "]" for e in a.x)) for a in sk]
         out.append(",\n".join(rows))
         out.append("]")
         out.append("")
@@ -1710,6 +2307,8 @@ def main():
     out += ["]", "", "end Cuckoo.Gen.Sync", ""]
     with open(outp, "w", encoding="utf-8") as fh:
         fh.write("\n".join(out))
+    if os.environ.get("SYNCSKEL_DEBUG"):
+        print("RPN operands:", RPN_STATS)
 
 
 if __name__ == "__main__":
